@@ -351,6 +351,7 @@ func RunProducerRandom(c *Ctx, runs, maxLen int) {
 		p.obsAll = n <= 40
 		p.restart(-1)
 		crashes := 0
+		emptyRootUsed := false
 		for i := 0; i < n; i++ {
 			if !p.up() {
 				f := -1
@@ -397,6 +398,12 @@ func RunProducerRandom(c *Ctx, runs, maxLen int) {
 			}
 			if rng.Intn(10) == 0 {
 				p.n.Exec.FailNext = 1
+			}
+			if !emptyRootUsed && r%2 == 0 && i >= 2 && rng.Intn(6) == 0 {
+				// once per run: the execution layer reports an empty state root for a block (the next header must
+				// carry that root, and the next execution must start from it)
+				p.n.Exec.EmptyRootNext = 1
+				emptyRootUsed = true
 			}
 			f := -1
 			if rng.Intn(8) == 0 && crashes < 6 {
